@@ -6,16 +6,20 @@ from common import xr, xvec, from_xr, from_xvec, num_close
 import diaglib as D
 import diagoracle as O
 from props import c16v
+from props import c16w
 
 ID = "C16"
-TARGETS = ["Proofs.C16", "Proofs.C16More"] + c16v.TARGETS
+TARGETS = ["Proofs.C16", "Proofs.C16More", "Proofs.C16Std"] + c16v.TARGETS
 GEN_PREFIXES = []
 MODELLED = ["obsfcst", "qq", "scatter", "cond", "freq", "hist", "sort", "marginal", "reliability", "invreliability",
             "discrimination", "roc", "performance", "taylor", "error", "pithist", "spreadskill", "bsdecomp", "standard",
             "droc0", "droc", "against", "change", "igncontrib", "economicvalue", "murphy", "timeseries", "meteo"]
 ORACLE_ONLY = []
 VIEWS_MODELLED = ["rank", "impact", "map", "maprank", "mapimpact"]      # -type views of a standard metric: props/c16v.py
-UNMODELLED = ["fss", "autocorr", "autocov"]
+UNMODELLED = ["fss", "autocorr", "autocov"]      # no Lean model; exact-arithmetic oracle + read-back: props/c16w.py
+ORACLE_ONLY_VIEWS = ["fss", "autocorr", "autocov"]
+AXES = ["leadtime", "location", "time", "leadtimeday", "elev"]
+TIME_AXES = ["month", "week", "year", "day", "timeofday", "dayofyear", "dayofmonth", "monthofyear"]
 THEOREMS = {"Proofs.C16": ["VerifModel.C16." + t for t in [
     "C16_partition_ho", "C16_partition_oc", "C16_partition_hist", "C16_partition_ocf", "C16_bins_partition_last",
     "C16_bins_last_outside", "C16_bins_partition_reliability", "C16_bins_partition_invreliability",
@@ -42,6 +46,10 @@ THEOREMS = {"Proofs.C16": ["VerifModel.C16." + t for t in [
         "C16_def_igncontrib_partial", "C16_igncontrib_zero_prob", "C16_igncontrib_edges", "C16_counts_total_igncontrib",
         "C16_timeseries_valid_time", "C16_def_timeseries_runs", "C16_def_timeseries_obs", "C16_timeseries_layout",
         "C16_def_meteo_line", "C16_def_meteo_x", "C16_meteo_bands", "C16_meteo_quantile_order", "C16_meteo_layout"]]}
+THEOREMS["Proofs.C16Std"] = ["VerifModel.C16." + t for t in [
+    "C16_def_standard_threshold", "C16_standard_threshold_x", "C16_def_standard_axis", "C16_def_standard_single",
+    "C16_standard_acc", "C16_standard_bars", "C16_standard_lines", "C16_std_cell_agg", "C16_std_cell_cont",
+    "C16_std_cell_prob", "C16_obsfcst_default", "C16_def_obsfcst_agg"]]
 THEOREMS.update(c16v.THEOREMS)
 TRUSTED_BASE = [
     "Lean 4.33 kernel; axioms propext, Classical.choice, Quot.sound only",
@@ -67,6 +75,12 @@ TRUSTED_BASE = [
     "Against within the tolerance 1e-6 / exact comparisons on the half-integer grid; np.unique(return_index) = first occurrence",
     "TimeSeries / Meteo: the (time, lead time, location) array of get_scores is handed to the model cell by cell in the order the "
     "code reduces it (location innermost for TimeSeries; runs innermost, then locations, for Meteo); datenum = unixtime / 86400",
+    "standard line plots: Spec/DiagramStd.lean is my reading of the help texts of -x / -r / -acc / -agg (which score is drawn where); "
+    "Model/DiagramStd.lean is hand-written from Standard._get_x_y / _plot_core and ObsFcst._get_x_y and tied to the code by "
+    "diag.artists / diag.cli / diag.sequence; the score of one cell reuses the models of C05 (Gen.Det + Model/Aggregator), C06 "
+    "(Model/Contingency) and C08 (Model/Prob kernels), the -acc model of C12 (Model/OutputTable.acc); the columns handed to the model "
+    "are those Data.get_scores returns for each (interval, slice); bar read-back = left edge, height, width of the patches",
+    "autocorr / autocov / fss: harness/props/c16w.py only (exact-arithmetic oracle on the artists read back); no Lean model",
     "views (-type rank/impact/map/maprank/mapimpact): Spec/DiagramViews.lean is my reading of the comments, labels and docstrings of "
     "verif.output.Standard (there is no help text beyond the list of -type values); Model/DiagramViews.lean is hand-written from "
     "_plot_rank_core / _plot_impact_core / _map_core / _plot_mapimpact_core and tied to the code by the stream diag.view; read-back of "
@@ -99,8 +113,23 @@ ASSUMPTIONS = [
     "coordinates of impact's marginal bars (bottom of the x-axis bars = lower y-limit, left end of the y-axis bars) are not compared; "
     "maps without a background map (cartopy is not installed), marker colours as data values and colour limits (not compared when all "
     "scores are equal: matplotlib widens the scale), maprank's min/max marking and mapimpact's sizes by correspondence + oracle only (no theorem)",
-    "NOT covered at all: " + ", ".join(UNMODELLED) + "; -x for taylor/performance/bsdecomp/qq/scatter only leadtime/location; "
-    "-agg other than mean; -acc; -hist/-sort only for obs and fcst; obsfcst/standard with -x none (bar graph); of the users of "
+    "standard line plots (Model/DiagramStd.lean, Proofs/C16Std.lean): -m mae|bias|rmse (with every aggregator of -agg: median, min, "
+    "max, std, variance, iqr, range, count, sum, meanabs, absmean, change, abschange, a quantile level) and corr; the contingency "
+    "scores " + ", ".join(O.CONT_METRICS) + " with -r (1-4 thresholds, also descending) and every -b type; the Brier family " +
+    ", ".join(O.PROB_METRICS) + " on the stored thresholds 1 and 2 (below/above types, within types on [1, 2]); x-axis: the metric's "
+    "default (threshold for the contingency and Brier scores), -x threshold, the data axes " + ", ".join(AXES) + ", the calendar axes " +
+    ", ".join(TIME_AXES) + " (initialisation times then spread over several days / weeks / months / years), -x no (bar graph); -acc. "
+    "On a data axis with SEVERAL thresholds the drawn value is the mean over the thresholds of the per-threshold scores (the code's "
+    "'Average all thresholds'; no help text says so; modelled, proved and recomputed as such). A slice without a valid case: NaN for "
+    "every metric-based score, also with -agg count (ObsFcst's own lines give count = 0 there). Not covered: -x obs / -x fcst, the "
+    "default -r of the driver (20 linspace thresholds), quantile-type metrics (-q), dscore/edi/sedi/eds/seds/lor in the oracle (the "
+    "model has them), ign0/spherical, -leg sort, smoothing line; the bar graph's bars are centred 0.4 left of their tick labels "
+    "(matplotlib's default align='center' on x = linspace(1 - w/2, ...): cosmetic, the text label sits on the bar)",
+    "obsfcst, qq, scatter: -agg (all aggregators above) on every line incl. the observation line and quantile lines; obsfcst -acc and "
+    "-x no (bars: observation, forecasts in input order, quantile lines); -x for taylor / performance / bsdecomp / qq / scatter / "
+    "obsfcst / standard also from the calendar axes; -hist / -sort also of the pit field of probabilistic inputs",
+    "oracle only (no Lean model), props/c16w.py: " + ", ".join(ORACLE_ONLY_VIEWS) + " - " + c16w.ASSUMPTIONS_TEXT,
+    "NOT covered at all: -x obs|fcst of standard plots; of the users of "
     "util.fill only the bands of obsfcst -q and meteo are read back from a diagram (the reliability confidence / no-skill areas "
     "and the timeseries bands are decoration here; util.fill itself is checked directly); a band vertex is 'missing' iff NaN "
     "(an infinite value is a vertex); equal lengths of x, lower, upper",
@@ -143,7 +172,14 @@ RULE = ("diag.artists: for each of 28 diagrams (all of them modelled) random dat
         "(three inputs, corr, the first two tie where the third has no score); the real Output.plot_rank / plot_impact / map / "
         "plot_mapimpact run in-process, bar patches and scatter collections are read back and compared with the Lean model on the "
         "vectors Data.get_scores returns and with an exact-arithmetic (fractions.Fraction for mae/bias) recomputation from the raw arrays; "
-        "diag.viewcli (8 / 80): the same through verif.driver.run -type <view> on text files")
+        "diag.viewcli (8 / 80): the same through verif.driver.run -type <view> on text files. "
+        "standard (in diag.artists on deterministic AND probabilistic datasets, diag.cli, diag.sequence): metric family drawn from "
+        "det (mae/bias/rmse/corr, half of them with -agg) / contingency (19 scores, -r with 1-4 thresholds, 70% a -b type incl. the "
+        "within family) / Brier family (8 scores on the stored thresholds); x = the default axis, -x threshold, a data axis, a "
+        "calendar axis (month, week, year, day, timeofday, dayofyear, dayofmonth, monthofyear) or no; 30% -acc, most of these with a "
+        "slice (not the last) emptied so that a missing score precedes defined ones. obsfcst: 35% -agg, 25% -acc, -x also no / "
+        "calendar axes; qq / scatter / taylor / performance / bsdecomp: 40% -x incl. calendar axes, qq / scatter half of them with "
+        "-agg; hist / sort also on probabilistic datasets with the pit field. " + c16w.RULE_TEXT)
 EXHAUSTIVE = {"quick": False, "thorough": False}
 EXHAUSTIVE_NOTE = ("random datasets; the partition / count / order / band-polygon theorems are unbounded; diag.fill is "
                    "exhaustive over the missingness patterns of two envelopes of up to 3 (quick) / 4 (thorough) points")
@@ -188,7 +224,20 @@ LEVEL_TEXT = ("Lean theorems: for the bin convention each diagram actually uses,
               "contributes (x-obs)^2 - (y-obs)^2, cells in np.repeat x np.tile order, red iff > 0 / blue iff < 0 / none iff 0; -type map — "
               "every location with a score has exactly one marker (with multiplicity for equal coordinates), none without, in location "
               "order, colour values = the scores, one scatter per input in command-line order; mapimpact — a location is in exactly one "
-              "group iff its difference is not zero. fss, autocorr/autocov are not covered.")
+              "group iff its difference is not zero. "
+              "Standard line plots (Proofs/C16Std.lean): with -x threshold the figure has one point per threshold at the interval "
+              "centre and its value is the score of THAT threshold on all cases - nothing is averaged over thresholds "
+              "(C16_def_standard_threshold); on a data axis (or -x no) the value of slice j is the mean over the thresholds of the scores "
+              "of slice j, with one threshold (or none) the score of slice j itself whatever its value (C16_def_standard_axis, "
+              "_single); -acc: entry k is the running sum of the scores up to k, an undefined score counting as 0, i.e. the NaN "
+              "replacement precedes the summation (C16_standard_acc, from C12_acc_full); -x no: one bar container, bar k = input k, "
+              "[k + 1/5, k + 1] (C16_standard_bars); otherwise one line per input in input order (C16_standard_lines); the cells are "
+              "the textbook scores: mae / bias / rmse with ANY aggregator in the place of the mean (C16_std_cell_agg, via GenEq.Det), "
+              "ets / hit / far of the slice's 2x2 table, NaN where undefined, never inf (C16_std_cell_cont, via C06), the Brier family "
+              "= C08's kernels on get_p's (event indicator, cdf(upper) - cdf(lower)) (C16_std_cell_prob); ObsFcst with -agg / -acc: "
+              "the observation line and every forecast line carry the chosen aggregate of each slice, accumulated under -acc, "
+              "and with the defaults it is the figure of C16_def_obsfcst (C16_def_obsfcst_agg, C16_obsfcst_default). "
+              + c16w.LEVEL_TEXT_ADD)
 TECHNIQUE = "Lean 4 proof over a model of each diagram's series; differential correspondence on the live figure's artists"
 
 GRID = [0.0, 0.5, 1.0, 1.5, 2.0, 3.0]
@@ -255,7 +304,33 @@ def gen_dataset(rng, kind, F=None, big=False, band=False):
 
 EDGES_DET = [[0.0, 1.0, 2.0, 3.0], [0.0, 0.5, 1.5, 3.0], [-1.0, 1.0, 4.0], [0.5, 1.0, 2.0]]
 EDGES_P = [[0.0, 0.25, 0.5, 0.75, 1.0], [0.0, 0.5, 1.0], [0.0, 0.125, 0.375, 0.875]]
-AXES = ["leadtime", "location", "time", "leadtimeday", "elev"]
+STD_DET = ["mae", "bias", "rmse", "corr"]
+STD_CONT = list(O.CONT_METRICS)
+STD_PROB = list(O.PROB_METRICS)
+AGGS = ["median", "min", "max", "std", "variance", "iqr", "range", "count", "sum", "meanabs", "absmean", "change",
+        "abschange", "0.25", "0.9"]
+
+
+def knock_out_slice(rng, ds, axis):
+    """-acc: a slice (not the last one) without any valid case, so that a missing score sits before defined ones"""
+    dim = {"leadtime": 1, "location": 2, "elev": 2, "time": 0}.get(axis)
+    if dim is None or ds.shape[dim] < 2:
+        return
+    idx = [slice(None)] * 3
+    idx[dim] = rng.randrange(ds.shape[dim] - 1)
+    for I in ds.inputs:
+        I["obs"][tuple(idx)] = np.nan
+
+
+def spread_times(rng, ds):
+    """initialisation times that fall into different (and sometimes the same) days, weeks, months, years: used when a
+    diagram is drawn against a calendar axis"""
+    t = 1325376000.0 + 86400.0 * rng.choice([0, 3, 27, 58, 330, 360])
+    out = []
+    for _ in ds.times:
+        out.append(t)
+        t += rng.choice([21600.0, 43200.0, 86400.0, 86400.0, 5 * 86400.0, 20 * 86400.0, 40 * 86400.0])
+    ds.times[:] = out
 
 
 # every ordered choice of two or three of the stored quantile levels
@@ -288,6 +363,10 @@ def gen_options(rng, name, ds, band=False):
             o["q"] = rng.choice(EDGES_P)
         if name in ("reliability", "roc") and rng.random() < 0.4:
             o["simple"] = True
+        if name == "bsdecomp" and rng.random() < 0.4:
+            o["x"] = rng.choice(["leadtime", "location"] + TIME_AXES)
+            if o["x"] in TIME_AXES:
+                spread_times(rng, ds)
     elif name in ("performance", "droc", "droc0"):
         o["r"] = [rng.choice([0.5, 1.0, 1.5, 2.0])]
         if rng.random() < 0.6:
@@ -295,16 +374,20 @@ def gen_options(rng, name, ds, band=False):
         if name == "performance":
             if rng.random() < 0.7:
                 o["simple"] = True
-            if rng.random() < 0.3:
-                o["x"] = rng.choice(["leadtime", "location"])
+            if rng.random() < 0.4:
+                o["x"] = rng.choice(["leadtime", "location"] + TIME_AXES)
+                if o["x"] in TIME_AXES:
+                    spread_times(rng, ds)
     elif name in ("cond", "freq", "hist"):
         o["r"] = rng.choice(EDGES_DET)
         if rng.random() < 0.5:
             o["b"] = rng.choice(["within=", "=within", "within", "=within="] + (["above", "below="] if name == "freq" else []))
         if name == "hist":
-            o["m"] = rng.choice(["obs", "fcst"])
+            o["m"] = rng.choice(["obs", "fcst"] + (["pit", "pit"] if "pit" in ds.inputs[0] else []))
+            if o["m"] == "pit":
+                o["r"] = rng.choice(EDGES_P + [[0.0, 0.2, 0.4, 0.6, 0.8, 1.0]])
     elif name == "sort":
-        o["m"] = rng.choice(["obs", "fcst"])
+        o["m"] = rng.choice(["obs", "fcst"] + (["pit", "pit"] if "pit" in ds.inputs[0] else []))
     elif name == "marginal":
         if rng.random() < 0.5 or not ds.thresholds():
             o["r"] = rng.choice([[1.0], [2.0, 1.0], [1.0, 2.0]])
@@ -323,18 +406,60 @@ def gen_options(rng, name, ds, band=False):
             o["r"] = rng.choice(EDGES_P + [[0.0, 0.2, 0.4, 0.6, 0.8, 1.0]])
         if rng.random() < 0.3:
             o["simple"] = True
-    elif name in ("obsfcst", "standard"):
-        o["x"] = rng.choice(AXES)
-        if name == "standard":
-            o["m"] = rng.choice(["mae", "bias", "rmse", "corr"])
-        elif ds.quantiles() and (band or rng.random() < 0.4):
+    elif name == "standard":
+        fam = rng.choice(["det", "det", "cont", "cont", "prob" if ds.thresholds() else "cont"])
+        if fam == "det":
+            o["m"] = rng.choice(STD_DET)
+            o["x"] = rng.choice(AXES + TIME_AXES + ["no"])
+            if o["m"] != "corr" and rng.random() < 0.5:
+                o["agg"] = rng.choice(AGGS)
+        else:
+            if fam == "cont":
+                o["m"] = rng.choice(STD_CONT)
+                o["r"] = rng.choice([[0.0, 1.0, 2.0], [1.0], [0.5, 1.5], [0.0, 1.0, 2.0, 3.0], [2.0, 0.5]])
+            else:
+                o["m"] = rng.choice(STD_PROB)
+                o["r"] = rng.choice([[1.0], [2.0], [1.0, 2.0], [1.0, 2.0], [2.0, 1.0]])
+            if rng.random() < 0.7:
+                bts = ["above", "above=", "below", "below="]
+                if len(o["r"]) >= 2 and (fam == "cont" or o["r"] == [1.0, 2.0]):
+                    bts += ["within", "=within", "within=", "=within="]
+                o["b"] = rng.choice(bts)
+            u = rng.random()
+            if u < 0.3:
+                o["x"] = "threshold"
+            elif u < 0.55:
+                pass                                  # the metric's default axis: threshold
+            else:
+                o["x"] = rng.choice(AXES + TIME_AXES + ["no"])
+        if rng.random() < 0.3:
+            o["acc"] = True
+            if rng.random() < 0.7:
+                knock_out_slice(rng, ds, o.get("x"))
+        if o.get("x") in TIME_AXES:
+            spread_times(rng, ds)
+    elif name == "obsfcst":
+        o["x"] = rng.choice(AXES + ([] if band else TIME_AXES + ["no"]))
+        if ds.quantiles() and (band or rng.random() < 0.4):
             o["q"] = rng.choice([[0.25, 0.75], [0.25, 0.5, 0.75], [0.75, 0.25]] if band else [[0.5], [0.25, 0.75]])
         if band and rng.random() < 0.7:
             o["x"] = "leadtime"
+        if rng.random() < 0.35:
+            o["agg"] = rng.choice(AGGS)
+        if rng.random() < 0.25:
+            o["acc"] = True
+            if rng.random() < 0.7:
+                knock_out_slice(rng, ds, o.get("x"))
+        if o.get("x") in TIME_AXES:
+            spread_times(rng, ds)
     elif name in ("qq", "scatter"):
-        if rng.random() < 0.3:
-            o["x"] = rng.choice(["leadtime", "location"])
-        if name == "qq" and ds.quantiles() and rng.random() < 0.4:
+        if rng.random() < 0.4:
+            o["x"] = rng.choice(["leadtime", "location"] + TIME_AXES)
+            if rng.random() < 0.5:
+                o["agg"] = rng.choice(AGGS)
+            if o["x"] in TIME_AXES:
+                spread_times(rng, ds)
+        if name == "qq" and ds.quantiles() and rng.random() < (0.9 if "agg" in o else 0.4):
             o["q"] = rng.choice([[0.5], [0.25, 0.75]])
         if name == "scatter":
             if rng.random() < 0.5:
@@ -344,8 +469,10 @@ def gen_options(rng, name, ds, band=False):
             else:
                 o["simple"] = True
     elif name == "taylor":
-        if rng.random() < 0.3:
-            o["x"] = rng.choice(["leadtime", "location"])
+        if rng.random() < 0.4:
+            o["x"] = rng.choice(["leadtime", "location"] + TIME_AXES)
+            if o["x"] in TIME_AXES:
+                spread_times(rng, ds)
     elif name == "change":
         o["r"] = rng.choice([[-3.0, -1.0, 0.0, 1.0, 3.0], [-2.0, 0.0, 2.0]])
     elif name in ("timeseries", "meteo"):
@@ -357,7 +484,8 @@ def gen_options(rng, name, ds, band=False):
 KIND_OF = {"det": ["obsfcst", "qq", "scatter", "cond", "freq", "hist", "sort", "performance", "taylor", "error", "standard",
                    "droc", "droc0", "against", "change", "timeseries"],
            "prob": ["marginal", "reliability", "invreliability", "discrimination", "roc", "pithist", "spreadskill",
-                    "bsdecomp", "murphy", "economicvalue", "igncontrib", "obsfcst", "qq", "timeseries", "meteo"],
+                    "bsdecomp", "murphy", "economicvalue", "igncontrib", "obsfcst", "qq", "timeseries", "meteo", "standard",
+                    "hist", "sort"],
            "ens": ["reliability", "discrimination", "roc", "marginal", "bsdecomp", "timeseries", "murphy"]}
 BIG = ("reliability", "invreliability", "igncontrib", "discrimination", "bsdecomp")
 
@@ -420,7 +548,7 @@ def extra_evidence(rows):
     for r in rows:
         a = r["op"].split(" ")
         if a[0] not in ("bin", "fillpoly"):
-            for n in (["view." + a[1]] if c16v.is_view(r["op"]) else a[1].split("+")):
+            for n in (["view." + a[1]] if c16v.is_view(r["op"]) else ["w." + a[1]] if c16w.is_w(r["op"]) else a[1].split("+")):
                 per[n] = per.get(n, 0) + 1
     return {"modelled": MODELLED, "oracle_only": ORACLE_ONLY, "unmodelled": UNMODELLED, "renders_per_diagram": per}
 
@@ -530,12 +658,16 @@ def gen_ops(tier, rng):
         yield "diag.bin", "bin %s %s %s" % (xvec(edges), xvec(x), xvec(y))
     for item in c16v.gen_ops(tier, rng):        # the views of a standard metric (rank, impact, maps): props/c16v.py
         yield item
+    for item in c16w.gen_ops(tier, rng):        # autocorr, autocov, fss (oracle only): props/c16w.py
+        yield item
 
 
 # ------------------------------------------------------------------ implementation side
 def impl(op):
     if c16v.is_view(op):
         return c16v.impl(op)
+    if c16w.is_w(op):
+        return c16w.impl(op)
     a = op.split(" ")
     if a[0] == "bin":
         import verif.util
@@ -580,6 +712,8 @@ def _venc(cols):
 def lean_op(op):
     if c16v.is_view(op):
         return c16v.lean_op(op)
+    if c16w.is_w(op):
+        return c16w.lean_op(op)
     a = op.split(" ")
     if a[0] in ("bin", "fillpoly"):
         return op
@@ -618,8 +752,33 @@ def lean_op(op):
                     d["fcst"] = [s[1] for s in sl]
                     for j in range(len(qs)):
                         d["q%d" % j] = [s[2 + j] for s in sl]
-                elif name in ("cond", "freq", "performance", "taylor", "error", "standard"):
-                    ax = o.get("x", "leadtime" if name == "standard" else "none")
+                elif name == "standard":
+                    # per interval i the columns get_scores hands to compute_single, slice after slice: o<i>, a<i>, b<i>
+                    import verif.util
+                    pl = D.make_output(name, o, data)
+                    fam = "prob" if o["m"] in O.PROB_METRICS else "detcont"
+                    lo["b"] = pl.bin_type
+                    if pl.thresholds is not None:
+                        lo["r"] = [float(t) for t in pl.thresholds]
+                    axname = pl.axis.name().lower()
+                    lo["xk"] = axname if axname in ("threshold", "no") else "data"
+                    n = 1 if lo["xk"] != "data" else data.get_axis_size(pl.axis)
+                    for i, iv in enumerate(verif.util.get_intervals(pl.bin_type, pl.thresholds)):
+                        fields = [vf.Obs(), vf.Fcst()]
+                        if fam == "prob":
+                            fields = [vf.Obs()] + ([vf.Threshold(iv.lower)] if iv.lower != -np.inf else []) + \
+                                     ([vf.Threshold(iv.upper)] if iv.upper != np.inf else [])
+                        sl = [data.get_scores(fields, f, pl.axis, j) for j in range(n)]
+                        d["o%d" % i] = [s[0] for s in sl]
+                        if fam == "prob":
+                            if iv.lower != -np.inf:
+                                d["a%d" % i] = [s[1] for s in sl]
+                            if iv.upper != np.inf:
+                                d["b%d" % i] = [s[-1] for s in sl]
+                        else:
+                            d["a%d" % i] = [s[1] for s in sl]
+                elif name in ("cond", "freq", "performance", "taylor", "error"):
+                    ax = o.get("x", "none")
                     sl = _slices(data, [vf.Obs(), vf.Fcst()], f, ax)
                     d["obs"], d["fcst"] = [s[0] for s in sl], [s[1] for s in sl]
                 elif name in ("hist", "sort"):
@@ -679,15 +838,19 @@ def lean_op(op):
                 per.append(";".join("%s=%s" % (k, _venc(v)) for k, v in d.items()))
             if name in ("timeseries", "meteo"):
                 lo["tm"], lo["ld"] = [float(t) for t in data.times], [float(l) for l in data.leadtimes]
-            axn = o.get("x", "leadtime" if name in ("obsfcst", "standard") else "none")
-            if axn not in ("none", "no"):
+            axn = o.get("x", "leadtime" if name == "obsfcst" else "none")
+            if name == "standard":
+                axn = pl.axis.name().lower()
+            if name == "obsfcst" and axn in ("none", "no"):
+                lo["xk"] = "no"
+            if axn not in ("none", "no", "threshold"):
                 axo = verif.axis.get(axn)
                 xs = data.get_axis_values(axo)
                 if axo.is_time_like:
                     xs = [t / 86400.0 for t in xs]
                 lo["ax"] = xs
     parts = []
-    for k in ("m", "b", "r", "q", "simple", "ax", "tm", "ld"):
+    for k in ("m", "b", "r", "q", "simple", "ax", "tm", "ld", "agg", "acc", "xk"):
         if k in lo:
             v = lo[k]
             parts.append("%s=%s" % (k, xvec(v) if k in ("r", "q", "ax", "tm", "ld") else ("1" if v is True else v)))
@@ -706,6 +869,8 @@ def _vec_close(u, v, rtol=1e-9, atol=1e-9):
 def cmp(op, impl_out, model_out):
     if c16v.is_view(op):
         return c16v.cmp(op, impl_out, model_out)
+    if c16w.is_w(op):
+        return c16w.cmp(op, impl_out, model_out)
     if model_out is None or model_out == "UNMODELLED":
         return True
     a = op.split(" ")
@@ -749,6 +914,8 @@ def _fmt(v):
 def judge(op, impl_out, spec_out):
     if c16v.is_view(op):
         return c16v.judge(op, impl_out, spec_out)
+    if c16w.is_w(op):
+        return c16w.judge(op, impl_out, spec_out)
     a = op.split(" ")
     if a[0] == "bin":
         return judge_bin(a, impl_out)
@@ -919,6 +1086,8 @@ def judge_bin(a, impl_out):
 def nontrivial(op, out):
     if c16v.is_view(op):
         return c16v.nontrivial(op, out)
+    if c16w.is_w(op):
+        return c16w.nontrivial(op, out)
     if out.startswith("E") or out == "-":
         return False
     if op.startswith("fillpoly "):
